@@ -15,6 +15,20 @@ CHECKS = {
    note="the harness signs, so signature validity is known by construction; ed25519 and the tendermint types are trusted; CometBFT RPC is mocked on loopback; larger validator sets are sampled"),
 }
 
+def _chain(pid, title, what, note="lab replay is a replica of finalize_block's non-cached path (its app hash is compared with the nodes' on every block); the harness plays CometBFT; quantifiers are sampled by seeded generators"):
+    return dict(engine="chainsim", cat="exploration", ref="DESIGN.md §5 " + pid,
+       technique="runtime monitoring: real sequencer App driven over multi-block histories on 3 nodes + lab, full-state diffs around every transaction recorded to an event log; offline Python oracle with exact integers / reference model",
+       text=what, note=note)
+
+CHECKS.update({
+ "C01": _chain("C01", "ledger", "Every successful transaction execution (decided or trial) is compared key-by-key (all balances, escrow, block-fee map) with a reference ledger model computed from the logged actions and the fee schedule read from the pre-state; fee events must equal base+multiplier*size exactly; end-of-block fee payout and per-block supply conservation are checked for every block. Held = no discrepancy on the executions produced."),
+ "C02": _chain("C02", "authz", "Every state key changed by every successful transaction is classified and attributed to the authority recorded in the pre-state (owner / bridge withdrawer / sudo / IBC sudo / bridge sudo); attacks by non-authorities, former authorities and bridge accounts are generated and must be refused. Held = no unauthorised change observed."),
+ "C03": _chain("C03", "atomic", "Failed executions (bundles failing at every action index, gapped nonces, replays, unaffordable actions after deposit-emitting ones) must leave an empty full-state diff (verifiable, non-verifiable, ephemeral fees/deposits) and no events; successes must consume exactly the signer's current nonce; no tx id or (signer, nonce) succeeds twice in a history."),
+ "C04": _chain("C04", "bridge", "Every Deposit appearing in the block's deposit cache is matched, inside the same transaction diff, with an equal credit of the named bridge in the bridge's asset; failed executions add no deposit or deposit event; (bridge, withdrawal event id) pairs are honoured at most once per history across unlock / bridge transfer / ICS-20 withdrawal, with reuse attempts generated on purpose."),
+ "C05": _chain("C05", "paths", "Three nodes and a lab node execute every decided block along independently drawn legal ABCI paths (proposer, validator after abandoned honest or corrupted rounds, syncer, restarted node); FinalizeBlock response digests, app hashes and full-state digests must agree on every height and no legal call may fail or panic on one path only."),
+ "C18": _chain("C18", "ibc", "Outgoing withdrawals (trace and ibc/ spelling, plain and bridge senders) and incoming packets / acks / time-outs are driven through the real Ics20Transfer handlers; an independent ICS-20 ledger per (channel, sequencer-origin asset) must equal the escrow keys after every step, error-acknowledged receives must change nothing but the ack record, successful ones exactly what the source/sink rule says (incl. the bridge deposit).", note="packets are driven at the penumbra AppHandler boundary (no ICS-23 proof verification); each outgoing packet is resolved at most once, as IBC core guarantees"),
+})
+
 def main():
     hooks = subprocess.run(["git", "-C", "/repo", "log", "--format=%h", "--grep=^verif hooks:"], capture_output=True, text=True).stdout.split()
     m = {
